@@ -22,10 +22,12 @@ EXTENDS Render, Gen
 
 VARIABLES vSrc, vIdx
 
+\* an entry without the flag (or with null) is not deprecated
+Flag(ent) == IF "isDeprecatedLicenseId" \in DOMAIN ent THEN ent.isDeprecatedLicenseId = TRUE ELSE FALSE
 LoadLic == LET j == JsonDeserialize("licenses.json").licenses IN
-           [n \in DOMAIN j |-> [id |-> j[n].licenseId, dep |-> j[n].isDeprecatedLicenseId]]
+           [n \in DOMAIN j |-> [id |-> j[n].licenseId, dep |-> Flag(j[n])]]
 LoadExc == LET j == JsonDeserialize("exceptions.json").exceptions IN
-           [n \in DOMAIN j |-> [id |-> j[n].licenseExceptionId, dep |-> j[n].isDeprecatedLicenseId]]
+           [n \in DOMAIN j |-> [id |-> j[n].licenseExceptionId, dep |-> Flag(j[n])]]
 LoadFiles == JsonDeserialize("genfiles.json")
 
 AllIds == Active \o Deprecated \o Exceptions
